@@ -229,6 +229,8 @@ type outEvent struct {
 }
 
 type scenarioResult struct {
+	exitedEarly bool
+	missing int
 	lines  []string
 	events []outEvent
 	stderr string
@@ -273,8 +275,12 @@ func runScenario(sc dScenario) (scenarioResult, error) {
 		return i >= 0 && strings.Count(out, `"auditId":"99999"`) >= 2 && strings.HasSuffix(out, "\n")
 	}
 	if !d.waitForOutput(60*time.Second, markerNeedle) {
-		if code, ok := d.waitExit(0); ok {
-			return scenarioResult{}, fmt.Errorf("the daemon exited with status %d while processing well-formed traffic; stderr: %s", code, tailStr(d.stderrText(), 1500))
+		if _, ok := d.waitExit(0); ok {
+			// the daemon gave up (fail-stop on some error): judge what it wrote
+			res := scenarioResult{ex: ex, exitedEarly: true}
+			res.lines = d.outputLines()
+			res.stderr = d.stderrText()
+			return res, nil
 		}
 		dump := d.dumpAndKill()
 		panic(&infraError{"marker session did not appear within 60s; goroutines:\n" + dump})
@@ -340,39 +346,38 @@ func oracleC10(r *scenarioResult) (alternations int, err error) {
 		case "UserAction":
 			key := fmt.Sprintf("%s|%d", ev.Metadata.AuditID, ev.LoggedAt.UnixMilli())
 			seenAction[key]++
-			owner, known := r.ex.actions[key]
-			if !known {
-				return 0, fmt.Errorf("output line %d: unexpected UserAction %s (no such audit event in a correlated session)", i+1, key)
-			}
 			li, ok := loginLine[ev.Subjects["pid"]]
 			if !ok || li > i {
 				return 0, fmt.Errorf("output line %d: UserAction %s carries the identity of login pid %s whose UserLogin has not been written yet", i+1, key, ev.Subjects["pid"])
 			}
-			_ = owner
 		default:
 			return 0, fmt.Errorf("output line %d: unexpected event type %q", i+1, ev.Type)
 		}
 	}
-	for pid := range r.ex.loginPIDs {
-		if seenLogin[pid] != 1 {
-			return 0, fmt.Errorf("UserLogin for accepted login pid %s written %d times, want 1", pid, seenLogin[pid])
-		}
-	}
-	for pid := range r.ex.failurePIDs {
-		if seenLogin[pid] != 1 {
-			return 0, fmt.Errorf("UserLogin for failed attempt pid %s written %d times, want 1", pid, seenLogin[pid])
-		}
-	}
+	// written twice? (whether every expected event is present at all is the
+	// concern of C02/C05/C06, not of this property)
 	for pid, n := range seenLogin {
-		if !r.ex.loginPIDs[pid] && !r.ex.failurePIDs[pid] {
-			return 0, fmt.Errorf("unexpected UserLogin for pid %s (%d times)", pid, n)
+		if n > 1 {
+			return 0, fmt.Errorf("UserLogin for pid %s written %d times", pid, n)
+		}
+	}
+	for key, n := range seenAction {
+		if n > 1 {
+			return 0, fmt.Errorf("UserAction %s written %d times", key, n)
+		}
+	}
+	missing := 0
+	for pid := range r.ex.loginPIDs {
+		if seenLogin[pid] == 0 {
+			missing++
 		}
 	}
 	for key := range r.ex.actions {
-		if seenAction[key] != 1 {
-			return 0, fmt.Errorf("UserAction %s written %d times, want 1", key, seenAction[key])
+		if seenAction[key] == 0 {
+			missing++
 		}
 	}
+	r.missing = missing
 	return alternations, nil
 }
 
@@ -425,6 +430,12 @@ func execC10(sc dScenario) Outcome {
 		labels = append(labels, "pipelines_alternate_10+_times")
 	}
 	addExtra("c10.daemon", "output_lines", len(res.lines))
+	if res.missing > 0 {
+		addExtra("c10.daemon", "expected_events_absent_(not_judged_here)", res.missing)
+	}
+	if res.exitedEarly {
+		addExtra("c10.daemon", "daemon_exited_before_the_marker_(not_judged_here)", 1)
+	}
 	return Outcome{NT: alt >= 10, Labels: labels}
 }
 
